@@ -20,6 +20,8 @@ var c12Alphabet = []string{
 	".", "..", "../x", "a/../b", "/a", "a/", "a//b", "", "./a", "a/.", "..a", "a/..", "b/x",
 	// legal names that merely start with dots, with children
 	"..a/x", "...", ".../y", "a/..b", "a/..b/c",
+	// a second branch whose directory names repeat those of the first
+	"b/b", "b/b/d",
 }
 
 const (
@@ -238,13 +240,66 @@ func c12DeepSeq(R *core.Rand) []c12sym {
 	return seq
 }
 
+// c12TreeSeq lists a random tree over few names (so that the same directory
+// names recur at the same depth in different branches) in protocol order and
+// applies at most one structural mutation.
+func c12TreeSeq(R *core.Rand) []c12sym {
+	names := []string{"a", "b", "x"}
+	var seq []c12sym
+	var gen func(prefix string, depth int)
+	gen = func(prefix string, depth int) {
+		for _, n := range names {
+			if !R.P(2, 3) {
+				continue
+			}
+			p := n
+			if prefix != "" {
+				p = prefix + "/" + n
+			}
+			if depth < 4 && R.P(3, 5) {
+				seq = append(seq, c12sym{p, kDir})
+				gen(p, depth+1)
+			} else {
+				seq = append(seq, c12sym{p, core.Pick(R, []int{kFile, kFile, kDel})})
+			}
+		}
+	}
+	gen("", 1)
+	if len(seq) < 2 {
+		return seq
+	}
+	i := R.Intn(len(seq))
+	switch R.Intn(7) {
+	case 0: // unchanged: must be accepted
+	case 1: // move one path to another top-level branch (same tail)
+		parts := strings.Split(seq[i].p, "/")
+		parts[0] = core.Pick(R, names)
+		seq[i].p = strings.Join(parts, "/")
+	case 2: // replace a middle component
+		parts := strings.Split(seq[i].p, "/")
+		parts[R.Intn(len(parts))] = core.Pick(R, names)
+		seq[i].p = strings.Join(parts, "/")
+	case 3: // drop an element (its children lose their parent)
+		seq = append(seq[:i], seq[i+1:]...)
+	case 4: // duplicate
+		seq = append(seq[:i+1], append([]c12sym{seq[i]}, seq[i+1:]...)...)
+	case 5: // swap neighbours
+		if i+1 < len(seq) {
+			seq[i], seq[i+1] = seq[i+1], seq[i]
+		}
+	case 6: // a directory becomes a file / a delete
+		seq[i].k = core.Pick(R, []int{kFile, kDel})
+	}
+	return seq
+}
+
 func init() {
 	syms := c12Syms()
 	nEnum := len(syms) * len(syms) // one case per pair of leading symbols
 	core.Register(&core.Prop{
 		ID:    "C12",
 		Level: "exploration",
-		Rule: "case 0 checks the order axioms on all pairs/triples of a path alphabet; cases 1..N enumerate EVERY sequence with a fixed pair of leading symbols up to the length bound over a 30-path x {dir,file,delete} alphabet (prefixes rejected by both sides are pruned, as the receiver stops there); remaining cases are random sequences up to length 60. " +
+		Rule: "case 0 checks the order axioms on all pairs/triples of a path alphabet; cases 1..N enumerate EVERY sequence with a fixed pair of leading symbols up to the length bound over a 32-path x {dir,file,delete} alphabet (prefixes rejected by both sides are pruned, as the receiver stops there); remaining cases are random sequences up to length 60, deep chains, and valid listings of random trees over the names {a,b,x} (depth <= 4, the same directory names recurring in different branches) with one structural mutation (a path moved to another branch, an element dropped, duplicated, swapped, or turned from directory into file). " +
 			"Each sequence is fed to a fresh real Validator and to the specification; non-trivial = enumeration chunk or random batch containing at least one sequence the specification accepts beyond length 1; distinct by leading symbols / PRNG value",
 		Assumptions: []string{"os.FileInfo passed to the validator is fsutil.StatInfo, as the receiver does", "unix path separator"},
 		Cases: func(tier string) int {
@@ -287,6 +342,12 @@ func init() {
 				nseq := 2000
 				var sample []string
 				for s := 0; s < nseq; s++ {
+					if s%4 == 2 {
+						seq := c12TreeSeq(c.R)
+						c12Check(r, seq)
+						r.Count("mutated_tree_listings", 1)
+						continue
+					}
 					if s%4 == 3 {
 						// deep chains: a nested chain of directories of depth 1..40,
 						// then returns to shallower levels with names below, equal
